@@ -861,6 +861,8 @@ pub fn exec<T: RealNumber, M: Matrix<T>>(op: &Op, r: &BackendRegs<T, M>) -> Resu
                 let mut i = m[*a].clone();
                 i.pow_mut(t(*p));
                 both(&c, &i, "pow");
+                // `pow` takes `&mut self` for historical reasons but is the copying variant: its receiver stays as it was
+                both(&m[*a], &src, "pow (copying variant) changed its receiver: receiver before vs after");
                 BVal::M(c)
             }
             Op::Binarize(a, thr) => {
